@@ -468,6 +468,10 @@ LEAF_FAMILIES = [
     # still being read)
     (['vnest:n0', 'vnest:n1', 'vnest:n2', 'vnest:n3'],
      lambda on: ({}, {'roles': [l.split(':')[1] for l in on]}), 4),
+    # credential attributes whose names BEGIN with the letters of an operator
+    # word (order, android, ORigin, notify)
+    (['order:1', 'android:1', 'ORigin:1', 'notify:1'],
+     lambda on: ({}, dict((l.split(':')[0], 1) for l in on)), 4),
 ]
 VOBJ_TRUE = ['yes', 1, [0], {'k': 0}]
 VOBJ_FALSE = ['', 0, None, []]
